@@ -400,4 +400,52 @@ Section CompWF.
     - intros Hv. exists ns. auto.
     - intros (ns' & Hq' & Hv). rewrite Hq in Hq'. inversion Hq'; subst. exact Hv.
   Qed.
+  (* two partitions of the same node list by the same relation have the same classes *)
+  Theorem partition_unique (nodes : list T) (rel : T -> T -> Prop) cs1 cs2 :
+    is_component_partition nodes rel cs1 -> is_component_partition nodes rel cs2 ->
+    forall c1, In c1 cs1 -> exists c2, In c2 cs2 /\ forall y, In y c1 <-> In y c2.
+  Proof.
+    intros (N1 & _ & C1 & R1) (_ & _ & C2 & R2) c1 Hc1.
+    destruct c1 as [ | x t ] eqn:Ec; [exfalso; apply (N1 [] Hc1); reflexivity | ]. rewrite <- Ec in *.
+    assert (Hx : In x c1) by (rewrite Ec; left; reflexivity).
+    assert (Hin1 : forall y, In y c1 -> In y nodes).
+    { intros y Hy. apply C1. apply in_concat. exists c1. auto. }
+    pose proof (Hin1 x Hx) as Hxn. apply C2 in Hxn. apply in_concat in Hxn. destruct Hxn as (c2 & Hc2 & Hx2).
+    assert (Hin2 : forall y, In y c2 -> In y nodes).
+    { intros y Hy. apply C2. apply in_concat. exists c2. auto. }
+    exists c2. split; [exact Hc2 | ]. intros y. split; intros Hy.
+    - apply (R2 c2 x y Hc2 Hx2 (Hin1 y Hy)). apply (R1 c1 x y Hc1 Hx (Hin1 y Hy)). exact Hy.
+    - apply (R1 c1 x y Hc1 Hx (Hin2 y Hy)). apply (R2 c2 x y Hc2 Hx2 (Hin2 y Hy)). exact Hy.
+  Qed.
+
+  (* the strong components do not depend on the neighbour iteration order *)
+  Theorem scc_order_independent (ord1 ord2 : list T -> list T) (g : gstate) cs1 cs2 :
+    (forall l x, In x (ord1 l) <-> In x l) -> (forall l x, In x (ord2 l) <-> In x l) ->
+    WF g ->
+    strongly_connected_components teqb ord1 g = Ok cs1 ->
+    strongly_connected_components teqb ord2 g = Ok cs2 ->
+    forall c1, In c1 cs1 -> exists c2, In c2 cs2 /\ forall y, In y c1 <-> In y c2.
+  Proof.
+    intros H1 H2 W E1 E2.
+    assert (Hd : directed (sp g) = true).
+    { destruct (directed (sp g)) eqn:Hd; [reflexivity | ].
+      destruct (wrong_kind teqb g) as (_ & Hw). destruct (Hw Hd) as (_ & Hs). rewrite (Hs ord1) in E1. discriminate. }
+    destruct (strongly_connected_components_wf ord1 g H1 W Hd) as (cs1' & E1' & P1).
+    destruct (strongly_connected_components_wf ord2 g H2 W Hd) as (cs2' & E2' & P2).
+    rewrite E1 in E1'. inversion E1'; subst cs1'. rewrite E2 in E2'. inversion E2'; subst cs2'.
+    apply (partition_unique _ _ cs1 cs2 P1 P2).
+  Qed.
+
+  (* the two orders the Run module evaluates: insertion order and its reverse *)
+  Theorem scc_run_orders (g : gstate) :
+    WF g -> directed (sp g) = true ->
+    (exists cs, strongly_connected_components teqb (fun l => l) g = Ok cs /\
+                is_component_partition (g_nodes g) (g_strongly g) cs) /\
+    (exists cs, strongly_connected_components teqb (@rev T) g = Ok cs /\
+                is_component_partition (g_nodes g) (g_strongly g) cs).
+  Proof.
+    intros W Hd. split.
+    - apply strongly_connected_components_wf; [intros l x; tauto | exact W | exact Hd].
+    - apply strongly_connected_components_wf; [intros l x; symmetry; apply in_rev | exact W | exact Hd].
+  Qed.
 End CompWF.
